@@ -93,12 +93,15 @@ def run(tier):
             rep.ob("validated-before-return", prof, False, "enforce not found")
             continue
         rep.fn(key)
+        n += 1
         try:
             paths = pl.extract(prog, key, [profiles.self_ref(prof), Str(("input",))])
+        except pl.UnexpectedCall as e:
+            rep.ob("validated-before-return", "%s::enforce" % prof, False, str(e), b.where(), key="validated-before-return|%s|unexpected-call" % prof)
+            continue
         except ip.AnalysisError as e:
             rep.analysis_error("validated-before-return", prof, e, b.where())
             continue
-        n += 1
         check_profile(prog, rep, prof, paths, "%s::enforce" % prof)
     # Nickname: the closure given to stabilize
     key = profiles.method_key("Nickname", profiles.PROFILE_TRAIT, "enforce")
